@@ -145,14 +145,18 @@ thread_local! {
 }
 
 fn point_code(p: Point) -> &'static str {
-    match p {
-        Point::BeforeLock => "L",
-        Point::AfterCheck => "K",
-        Point::AfterReset => "Z",
-        Point::BeforeCreate => "B",
-        Point::AfterCreate => "C",
-        Point::BeforeSet => "S",
-        Point::AfterSet => "T",
+    // by name, so that the harness builds against trees with fewer or more hook points
+    match format!("{:?}", p).as_str() {
+        "BeforeLock" => "L",
+        "BeforeCheck" => "Q",
+        "AfterCheck" => "K",
+        "AfterReset" => "Z",
+        "BeforeCreate" => "B",
+        "AfterCreate" => "C",
+        "BeforeRemark" => "F",
+        "BeforeSet" => "S",
+        "AfterSet" => "T",
+        _ => "?",
     }
 }
 
